@@ -61,3 +61,49 @@ Fixpoint rounds (n p : nat) (sched : list (list nat)) : nat :=
   end.
 
 Definition both_done (n p : nat) : bool := p =? n.
+
+(* ------------------------------------------------------------------ (c) the flights of the library's handshakes *)
+(* Which messages make up each flight of the DTLS 1.2 handshakes the library runs (cookie exchange
+   always on): full, full with client authentication, and resumed (abbreviated).  These tables are
+   compared on every check with the flights observed on a clean live run (harness op `sizes`),
+   and instantiate the abstract flight system above: n = number of flights, flight k sent by the
+   k-th party of the table.  Message codes are handshake type numbers; 254 = ChangeCipherSpec. *)
+Inductive party := Client | Server.
+Inductive hmode := HFull | HClientAuth | HResumed.
+
+Definition m_CH : Z := 1.   Definition m_SH : Z := 2.    Definition m_HVR : Z := 3.
+Definition m_CERT : Z := 11. Definition m_SKE : Z := 12.  Definition m_CR : Z := 13.
+Definition m_SHD : Z := 14.  Definition m_CV : Z := 15.   Definition m_CKE : Z := 16.
+Definition m_FIN : Z := 20.  Definition m_CCS : Z := 254.
+
+(* ske: the key exchange sends a ServerKeyExchange ((EC)DHE suites) *)
+Definition flights (ske : bool) (m : hmode) : list (party * list Z) :=
+  let k := if ske then [m_SKE] else [] in
+  [(Client, [m_CH]); (Server, [m_HVR]); (Client, [m_CH])] ++
+  match m with
+  | HFull       => [(Server, [m_SH; m_CERT] ++ k ++ [m_SHD]);
+                    (Client, [m_CKE; m_CCS; m_FIN]);
+                    (Server, [m_CCS; m_FIN])]
+  | HClientAuth => [(Server, [m_SH; m_CERT] ++ k ++ [m_CR; m_SHD]);
+                    (Client, [m_CERT; m_CKE; m_CV; m_CCS; m_FIN]);
+                    (Server, [m_CCS; m_FIN])]
+  | HResumed    => [(Server, [m_SH; m_CCS; m_FIN]);
+                    (Client, [m_CCS; m_FIN])]
+  end.
+
+Definition nflights (ske : bool) (m : hmode) : nat := length (flights ske m).
+
+Definition party_eqb (a b : party) : bool :=
+  match a, b with Client, Client | Server, Server => true | _, _ => false end.
+
+(* flights alternate between the peers, starting with the client *)
+Fixpoint alternating (expect : party) (l : list party) : bool :=
+  match l with
+  | [] => true
+  | p :: r => party_eqb p expect && alternating (match expect with Client => Server | Server => Client end) r
+  end.
+
+(* who sends the last flight (and therefore cannot know whether it arrived) *)
+Definition last_sender (ske : bool) (m : hmode) : party :=
+  fst (last (flights ske m) (Client, [])).
+
